@@ -338,16 +338,34 @@ pub const STRESS_SHARED_RULE: &str = "free-running stress: 2-6 threads issue ran
 fn stress_strategy(big: bool) -> proptest::strategy::BoxedStrategy<StressCase> {
     use proptest::prelude::*;
     let (w, r) = if big { (600u16..1500, 2000u16..6000) } else { (100u16..300, 400u16..1200) };
-    (prop_oneof![Just(1u64), Just(2u64), Just(100u64)], 2u8..5, 3u8..9, w, r, any::<bool>(), any::<u64>(), any::<bool>())
-        .prop_map(|(n, writers, readers, writes, reads, removes, seed, hot)| StressCase { n, writers, readers, writes, reads, removes, seed, hot })
+    (prop_oneof![Just(1u64), Just(2u64), Just(100u64)], 2u8..5, 3u8..9, w, r, any::<bool>(), any::<u64>(), prop::bool::weighted(0.7))
+        .prop_map(|(n, writers, readers, writes, reads, removes, seed, hot)| StressCase { n, writers, readers, writes, reads, removes, seed, hot, asyn: seed % 2 == 0 })
+        .boxed()
+}
+
+fn hot_strategy(big: bool) -> proptest::strategy::BoxedStrategy<StressCase> {
+    use proptest::prelude::*;
+    let (w, r) = if big { (10000u16..20000, 30000u16..60000) } else { (3000u16..6000, 10000u16..20000) };
+    (prop_oneof![1 => Just(3u64), 1 => Just(100u64), 3 => Just(10_000u64)], 3u8..5, 6u8..9, w, r, prop::bool::weighted(0.2), any::<u64>(), prop::bool::weighted(0.7))
+        .prop_map(|(n, writers, readers, writes, reads, removes, seed, asyn)| StressCase { n, writers, readers, writes, reads, removes, seed, hot: true, asyn })
         .boxed()
 }
 
 pub fn run_stress_register(ctx: &Ctx, acc: &Mutex<Acc>) -> Option<Violation> {
-    let cases = ctx.tier.scale(1, 10);
+    let cases = ctx.tier.scale(1, 8);
     let big = ctx.tier == Tier::Thorough;
+    // (a) many writers and readers hammering ONE key with small payloads
+    PAR_LIMIT.store(2, std::sync::atomic::Ordering::SeqCst);
+    sched::remove_hook();
+    let hot_cases = match ctx.tier { Tier::Quick => 1, Tier::Thorough => 4 };
+    let v = campaign(ctx, acc, "stress-hot-key", "STRESS-R", hot_cases, 0, |_| hot_strategy(big), run_register);
+    PAR_LIMIT.store(usize::MAX, std::sync::atomic::Ordering::SeqCst);
+    if v.is_some() {
+        return v;
+    }
     // the cases are multi-threaded themselves: run at most two at a time so that their threads really run in parallel
     PAR_LIMIT.store(2, std::sync::atomic::Ordering::SeqCst);
+    sched::remove_hook();
     let v = campaign(ctx, acc, "stress-register", "STRESS-R", cases, 0, |_| stress_strategy(big), run_register);
     PAR_LIMIT.store(usize::MAX, std::sync::atomic::Ordering::SeqCst);
     v
@@ -357,6 +375,7 @@ pub fn run_stress_shared(ctx: &Ctx, acc: &Mutex<Acc>, dangling: bool, listing: b
     let cases = ctx.tier.scale(1, 10);
     let big = ctx.tier == Tier::Thorough;
     PAR_LIMIT.store(3, std::sync::atomic::Ordering::SeqCst);
+    sched::remove_hook();
     let v = campaign(ctx, acc, "stress-shared", if listing { "STRESS-L" } else { "STRESS-D" }, cases, 0, |_| stress_strategy(big), move |c| run_shared(c, dangling, listing));
     PAR_LIMIT.store(usize::MAX, std::sync::atomic::Ordering::SeqCst);
     v
